@@ -255,8 +255,17 @@ def run_case(case, g, tier, res):
                          "picks": picks, "targets": targets, "what": what})
             return build
 
+        gA0 = A.generable
         try:
             ra = A.generate(rng=rng)
+        except Exception as e:
+            core.reraise_if_harness(e)
+            # a generation that ends in an exception (a dead end of the notation) is still only a READ of the parsed object
+            gen.OBS[0] = None
+            dA1 = digest(g, A, keysA)
+            c.prove(And(tree_eq(dA1[0], dA0[0]), dA1[1:3] == dA0[1:3], tree_eq(dA1[3], dA0[3]), A.generable == gA0),
+                    "parsed object unchanged by a generation that raised", detail("a generation that raised changed the parsed object"))
+            return f"raised {type(e).__name__}"
         finally:
             gen.OBS[0] = None
         smiA, wA = ra.smiles, ra.weight
@@ -362,11 +371,17 @@ def replay(rp, gb):
     s0 = str(A)
     keysA = {}
     dA = _plain_digest(gb, A, keysA)
+    gA0 = A.generable
     try:
         A_rng = gendrive.ScriptedRng(rp["picks"])
         ra = A.generate(rng=A_rng)
     except gendrive.ReplayDone:
         return False, "stream ended"
+    except Exception as e:
+        if rp["what"].startswith("a generation that raised"):
+            bad = str(A) != s0 or _plain_digest(gb, A, keysA) != dA or A.generable != gA0
+            return bad, f"generate raised {type(e).__name__}; generable {gA0} -> {A.generable}; parsed object changed: {bad}"
+        raise
     if str(A) != s0 or _plain_digest(gb, A, keysA) != dA:
         problems.append("generate changed the parsed object")
     rngA = None
